@@ -83,6 +83,14 @@ func init() {
 			fr.m.checkAssert(a[0].(string), a[1].(*Term))
 			return nil
 		},
+		// Check: an assertion after which the path is NOT narrowed to the states where it
+		// held: the harness branches on the condition itself and keeps examining the bad state.
+		"harness/vrt.Check": func(fr *frame, a []value) value {
+			fr.m.noAssume = true
+			fr.m.checkAssert(a[0].(string), a[1].(*Term))
+			fr.m.noAssume = false
+			return nil
+		},
 		"harness/vrt.Reach": func(fr *frame, a []value) value {
 			fr.m.reached[a[0].(string)]++
 			fr.m.events = append(fr.m.events, event{Kind: "R", ID: a[0].(string)})
@@ -151,6 +159,9 @@ func init() {
 			m := fr.m
 			if m.cur != nil && m.cur.named {
 				m.hookTrace = append(m.hookTrace, m.cur.name+"|"+a[0].(string))
+			} else if m.cur != nil && !m.cur.isMain && m.schedMode {
+				// a goroutine started by the library itself (the rotation goroutine)
+				m.hookTrace = append(m.hookTrace, "bg|"+a[0].(string))
 			}
 			m.hookPoint("hook:" + a[0].(string))
 			return nil
@@ -289,11 +300,17 @@ func init() {
 			if len(b) == 0 {
 				return fr.m.mkError("Time.UnmarshalBinary: no data")
 			}
-			okv := Cmp("=", b[0].(*Term), BV(8, 1))
-			if !fr.m.decide("time.version", okv) {
+			isV1 := Cmp("=", b[0].(*Term), BV(8, 1))
+			isV2 := Cmp("=", b[0].(*Term), BV(8, 2))
+			if !fr.m.decide("time.version", Or(isV1, isV2)) {
 				return fr.m.mkError("Time.UnmarshalBinary: unsupported version")
 			}
-			if len(b) != 15 {
+			// version 1: 15 bytes; version 2 adds one byte (zone offset seconds)
+			want := 15
+			if fr.m.decide("time.version2", isV2) {
+				want = 16
+			}
+			if len(b) != want {
 				return fr.m.mkError("Time.UnmarshalBinary: invalid length")
 			}
 			// decode sec (8 bytes BE), nsec (4 bytes BE), offset (2 bytes BE) as time.Time does
@@ -451,7 +468,11 @@ func (m *Machine) eventStrings(model map[string]uint64, upto int) []string {
 		case "R":
 			out = append(out, "R:"+e.ID)
 		case "A":
-			out = append(out, "A:"+e.ID+":1")
+			if e.T != nil && Eval(e.T, model, memo) == 0 {
+				out = append(out, "A:"+e.ID+":0")
+			} else {
+				out = append(out, "A:"+e.ID+":1")
+			}
 		case "O":
 			out = append(out, fmt.Sprintf("O:%s:%d", e.ID, Eval(e.T, model, memo)))
 		}
@@ -484,7 +505,33 @@ func (m *Machine) recordViolation(id, kind, msg string, _ *Term) {
 }
 
 // checkAssert discharges one assertion on the current path.
+// ownProp: the property this run decides ("" = every assertion). A harness family carries
+// the assertions of several properties; the ones of other properties are skipped here -
+// not checked, and above all not assumed, so that a state another property's assertion
+// would reject is still examined by this property's assertions further down the path.
+var ownProp string
+
+func foreignAssertion(id string) bool {
+	if ownProp == "" {
+		return false
+	}
+	dot := strings.IndexByte(id, '.')
+	if dot < 0 {
+		return false
+	}
+	for _, p := range strings.Split(id[:dot], "-") {
+		if p == ownProp {
+			return false
+		}
+	}
+	return strings.HasPrefix(id, "C") // ids without a property prefix are everybody's
+}
+
 func (m *Machine) checkAssert(id string, c *Term) {
+	if foreignAssertion(id) {
+		m.events = append(m.events, event{Kind: "A", ID: id, T: c})
+		return
+	}
 	m.asserts[id]++
 	m.assertsChecked++
 	if c == True {
@@ -501,6 +548,10 @@ func (m *Machine) checkAssert(id string, c *Term) {
 	if r == "sat" {
 		m.recordViolation(id, "assert", "", Not(c))
 		m.solver.Pop()
+		if m.noAssume {
+			m.events = append(m.events, event{Kind: "A", ID: id, T: c})
+			return
+		}
 		// continue the path under the assumption that the assertion held
 		if c == False || m.solver.CheckWith(c) != "sat" {
 			m.abort("assertion %s always fails here", id)
